@@ -22,6 +22,8 @@ Calls (one replica per session):
   end <re|PANIC>
   commit <apphash|PANIC>
   restart | checktx <rawtx> | simulate <tx> | query
+  probe <exists 0|1> <executed 0|1> <recorded 0|1> <hash>     the real proposal cache, read through
+        the verif hook: a proposal exists / has results / records proposer inputs / its hash
 After a PANIC that the model also predicts the session accepts only `restart`.
 -/
 namespace OasisModel.Mux.Driver
@@ -61,7 +63,7 @@ def proposerOf (hdr : String) : Nat :=
 
 abbrev TApps := Apps String WS String String String String String String
 abbrev TBlk := Blk String String String String String
-abbrev TMux := Mux String WS String String String String String
+abbrev TMux := Mux String WS String String String String String String
 abbrev TRaw := RawTx String String
 
 /-- The executor given by the observation table. Missing observations answer `UNKNOWN`. -/
@@ -190,6 +192,16 @@ def step (st : St) (line : String) : St × String :=
     match st.mux with
     | some m => ({ st with mux := some (restart m), crashed := false }, "ok")
     | none => fail "no replica"
+  | ["probe", ex, exe, rec, h] =>
+    match st.mux with
+    | none => fail "no replica"
+    | some m =>
+      let b (x : Bool) : String := if x then "1" else "0"
+      let mine := match m.prop with
+        | none => ["0", "0", "0", "0"]
+        | some p => ["1", b p.results.isSome, b p.recd.isSome, toString p.hash]
+      if mine == [ex, exe, rec, h] then (st, "ok")
+      else fail s!"proposal cache: model={mine} impl={[ex, exe, rec, h]}"
   | ["checktx", t] =>
     match parseRaw t with
     | some t => call (.checkTx t) "*"
